@@ -132,9 +132,28 @@ func waitHold(ch chan struct{}) {
 	t.Stop()
 }
 
-// Authorize implements router.Authorizer.  It always authorizes and never
-// touches the session.
+// deniedURI: requests about topics / procedures "denied.*" are refused.
+func deniedURI(m wamp.Message) bool {
+	var u wamp.URI
+	switch m := m.(type) {
+	case *wamp.Publish:
+		u = m.Topic
+	case *wamp.Subscribe:
+		u = m.Topic
+	case *wamp.Register:
+		u = m.Procedure
+	case *wamp.Call:
+		u = m.Procedure
+	}
+	return strings.HasPrefix(string(u), "denied.")
+}
+
+// Authorize implements router.Authorizer.  It authorizes everything except
+// requests about "denied.*" URIs and never touches the session.
 func (h *holds) Authorize(s *wamp.Session, m wamp.Message) (bool, error) {
+	if deniedURI(m) {
+		return false, nil
+	}
 	req, ok := requestOf(m)
 	if !ok {
 		return true, nil
